@@ -394,6 +394,65 @@ def skeletons(nest_levels):
         yield ir.Noop(text), ["kind:Noop", "noop:" + text.split()[0]]
 
 
+def dialect_specific_cases():
+    """statement kinds only some dialects have (COPY, directory targets, path sources, mysql UPDATE JOIN, partition exchange): text templates whose expected
+    tables follow from the statement's meaning; the query-bearing ones are combined with every FROM shape of the skeleton"""
+    out = []
+    for tq, tp in (("tgt", "<default>.tgt"), ("s1.tgt", "s1.tgt"), ("TGT", "<default>.tgt")):
+        for path in ("s3://bucket/p1", "/tmp/x.csv"):
+            out.append(("snowflake", f"COPY INTO {tq} FROM '{path}'", [path], [tp], ["kind:copy"]))
+            out.append(("postgres", f"COPY {tq} FROM '{path}'", [path], [tp], ["kind:copy"]))
+            out.append(("redshift", f"COPY {tq} FROM '{path}' IAM_ROLE 'arn:aws:iam::1:role/r'", [path], [tp], ["kind:copy"]))
+    out.append(("snowflake", "COPY INTO s1.tgt FROM @stage1/path FILE_FORMAT = (TYPE = CSV)", ["@stage1/path"], ["s1.tgt"], ["kind:copy"]))
+    for d in ("sparksql", "databricks"):
+        out.append((d, "SELECT * FROM parquet.`/data/x`", ["/data/x"], [], ["kind:path_source"]))
+        out.append((d, "INSERT INTO ta SELECT * FROM csv.`s3://b/x.csv`", ["s3://b/x.csv"], ["<default>.ta"], ["kind:path_source"]))
+        out.append((d, "INSERT INTO s1.tz SELECT x.c1 FROM json.`/data/j` x JOIN tb ON x.k = tb.k", ["/data/j", "<default>.tb"], ["s1.tz"], ["kind:path_source"]))
+    out.append(("mysql", "UPDATE ta a JOIN tb b ON a.k = b.k SET a.c = b.c", ["<default>.tb"], ["<default>.ta"], ["kind:update_join"]))
+    out.append(("mysql", "UPDATE s1.ta JOIN tb ON s1.ta.k = tb.k JOIN s2.tc c ON c.k = tb.k SET s1.ta.c = c.c", ["<default>.tb", "s2.tc"], ["s1.ta"], ["kind:update_join"]))
+    out.append(("hive", "ALTER TABLE ta EXCHANGE PARTITION (ds='1') WITH TABLE s1.tb", ["s1.tb"], ["<default>.ta"], ["kind:exchange_partition"]))
+    out.append(("vertica", "select swap_partitions_between_tables('staging', 'min', 'max', 'target')", ["<default>.staging"], ["<default>.target"], ["kind:swap_partitions"]))
+    out.append(("duckdb", "CREATE TABLE tgt AS FROM ta", ["<default>.ta"], ["<default>.tgt"], ["kind:from_first"]))
+    out.append(("bigquery", "INSERT tgt SELECT c FROM ta JOIN s1.tb USING (k)", ["<default>.ta", "s1.tb"], ["<default>.tgt"], ["kind:insert_without_into"]))
+    out.append(("sparksql", "CREATE TABLE tgt USING parquet LOCATION '/x' AS SELECT * FROM ta, tb", ["<default>.ta", "<default>.tb"], ["<default>.tgt"], ["kind:ctas_using"]))
+    # directory targets over every FROM shape
+    for fname, fb in from_shapes():
+        groups, qual, ctes = fb(0)
+        q = ir.Select((ir.Item(ir.Col(qual, "c1")),), groups)
+        if ctes:
+            q = _with(ctes, q)
+        S = ir.expected_tables(ir.Bare(q))[0]
+        out.append(("sparksql", "INSERT OVERWRITE DIRECTORY 'hdfs://x/y' " + ir.r_query(q), S, ["hdfs://x/y"], ["kind:overwrite_directory", "from:" + fname]))
+        out.append(("hive", "INSERT OVERWRITE LOCAL DIRECTORY '/tmp/out' " + ir.r_query(q), S, ["/tmp/out"], ["kind:overwrite_directory", "from:" + fname]))
+    return out
+
+
+def _specific_worker(payload):
+    shard, nshards, ctx = payload
+    from vlib import rewrite
+
+    res = runner.Res()
+    for idx, (dialect, sql, S, T, feats) in enumerate(dialect_specific_cases()):
+        if idx % nshards != shard:
+            continue
+        if not rewrite.parses(sql, dialect):
+            res.discard("rejected_by_dialect:" + dialect)
+            continue
+        c = {"sql": sql, "dialect": dialect, "expected": {"S": sorted(S), "T": sorted(T)}, "features": feats}
+        res.case(sql + "|" + dialect, True, labels=["dialect_specific", "dialect:" + dialect] + feats[:1], sample=c)
+        d = compare((sorted(S), sorted(T)), actual_tables(sql, dialect))
+        if d is None:
+            continue
+        fid = classify(c, d)
+        if fid and fid in ctx.active:
+            res.known(fid, c)
+        elif os.environ.get("VERIF_COLLECT"):
+            res.known("UNLISTED specific | " + d["what"] + " | " + dialect + " | " + ",".join(feats), c)
+        elif len(res.violations) < 4:
+            res.violation("dialect_specific", c, d)
+    return res
+
+
 def _skeleton_worker(payload):
     shard, nshards, nest_levels, ctx = payload
     res = runner.Res()
@@ -436,6 +495,7 @@ def replay(case):
 def run(ctx):
     nshards = runner.NCPU * 2
     res = runner.merge_all(runner.pmap(_skeleton_worker, [(i, nshards, (0, 1), ctx) for i in range(nshards)]))
+    res.merge(runner.merge_all(runner.pmap(_specific_worker, [(i, nshards, ctx) for i in range(nshards)])))
     res.extra["skeletons"] = sum(1 for _ in skeletons((0, 1)))
     n = ctx.n(1600, 24000)
     payloads = [(i, n // runner.NCPU, 2, ctx) for i in range(runner.NCPU)]
